@@ -77,6 +77,7 @@ class AsyncRequest {
     if (!state_.compare_exchange_strong(state, kUpdating, std::memory_order_acq_rel)) {
       return false;
     }
+    DISPENSO_VERIF_POINT(::dispenso::verif::kAsyncEmplaceAfterCas);
     obj_.emplace(std::forward<Args>(args)...);
     state_.store(kReady, std::memory_order_release);
     return true;
@@ -90,6 +91,7 @@ class AsyncRequest {
    **/
   OpResult getUpdate() {
     if (state_.load(std::memory_order_acquire) == kReady) {
+      DISPENSO_VERIF_POINT(::dispenso::verif::kAsyncGetAfterStateLoad);
       auto obj = std::move(obj_);
       state_.store(kNone, std::memory_order_release);
       return obj;
